@@ -29,6 +29,8 @@ PROPS = {
         "streams": [
             {"stream": "arith", "ops": ARITH_OPS, "n": {"quick": 40000, "thorough": 600000}},
             {"stream": "arith", "ops": ARITH_OPS, "n": {"quick": 300, "thorough": 4000}, "args": ["-extreme"]},
+            # the same oracle judges every outcome of the alias stream (aliased calls, other destination pre-states)
+            {"stream": "alias", "ops": ARITH_OPS, "n": {"quick": 5000, "thorough": 80000}, "projections": []},
         ],
         "projections": ["value", "err"],
         "oracle_tags": ["C01"],
@@ -41,6 +43,8 @@ PROPS = {
         "streams": [
             {"stream": "arith", "ops": ["add", "sub", "mul", "quo", "quoint", "rem", "round", "quantize", "rtie", "reduce"],
              "n": {"quick": 40000, "thorough": 600000}},
+            {"stream": "alias", "ops": ["add", "sub", "mul", "quo", "round", "reduce", "sqrt"], "n": {"quick": 5000, "thorough": 80000}, "projections": []},
+            {"stream": "roots", "n": {"quick": 5000, "thorough": 80000}, "projections": []},
         ],
         "projections": ["flags"],
         "oracle_tags": ["C02"],
@@ -52,8 +56,13 @@ PROPS = {
         "streams": [
             {"stream": "arith", "ops": ["add", "sub", "mul", "quo", "abs", "neg", "round", "rem", "reduce", "quantize", "quoint"],
              "n": {"quick": 40000, "thorough": 600000}},
+            {"stream": "roots", "n": {"quick": 6000, "thorough": 100000}},
+            {"stream": "translog", "n": {"quick": 6000, "thorough": 100000}},
+            {"stream": "strings", "n": {"quick": 6000, "thorough": 100000}},
         ],
-        "projections": ["value", "repr"],
+        # the property is a decidable predicate of each returned value: it is evaluated on every
+        # implementation output; no projection of the model correspondence is needed to decide it
+        "projections": [],
         "oracle_tags": ["C07"],
     },
     "C09": {
@@ -182,7 +191,8 @@ PROPS["C08"] = {
     "lean_modules": ["ApdVerif.Props.C08"],
     "theorem_prefixes": ["C08_"],
     "streams": [{"stream": "specials", "n": {"quick": 20000, "thorough": 300000}},
-                {"stream": "arith", "ops": ["add", "sub"], "n": {"quick": 8000, "thorough": 100000}}],
+                {"stream": "arith", "ops": ["add", "sub"], "n": {"quick": 8000, "thorough": 100000}},
+                {"stream": "alias", "n": {"quick": 12000, "thorough": 150000}, "projections": []}],
     "projections": ["value", "repr", "flags", "err"],
     "oracle_tags": ["C08"],
     "trusted_extra": [COMPOSITE_NOTE],
